@@ -160,7 +160,18 @@ class AccfgGen:
                 # the loop body starts with a conditional (e.g. a conditional re-launch) directly followed by a launch
                 self.count += 2
                 head = [self.if_node(inner, depth + 1, True), self.stmt_sl(inner)]
+            self.loops = getattr(self, "loops", []) + [(iv, node["step"])]
+            at_head = list(inner)  # what is visible at the head of the body
             node["body"] = head + self.stmts(r.randint(1, 3), inner, depth + 1, True)
+            self.loops = self.loops[:-1]
+            if p.get("next_iv") and r.random() < p["next_iv"]:
+                # a guarded use of the next iteration's induction variable (prefetch of the next tile) somewhere in the body
+                v = self.fresh("nx")
+                self.count += 2
+                sl = self.stmt_sl(at_head + [v])
+                sl["vals"][r.randrange(len(sl["vals"]))] = v
+                guard = {"k": "if", "cond": r.choice(["%b0", "%b1", "%b2"]), "then": [{"k": "nextiv", "name": v, "iv": iv, "step": node["step"]}, sl], "else": []}
+                node["body"].insert(r.randint(0, len(node["body"])), guard)
             if p.get("state_loops") and not node["carry"] and r.random() < p["state_loops"]:
                 node["carry_state"] = r.randrange(p["n_acc"])  # emitted as a loop that already carries that accelerator's state, if its body is simple enough
                 if p.get("stale_links") and r.random() < p["stale_links"]:
@@ -218,6 +229,12 @@ class AccfgGen:
             v = self.fresh("m")
             scope.append(v)
             return {"k": "ld", "name": v}
+        if mem and p.get("next_iv") and getattr(self, "loops", None) and r.random() < p["next_iv"]:
+            # the body computes the induction variable of the next iteration itself (e.g. to prefetch the next tile)
+            v = self.fresh("nx")
+            iv, step = self.loops[-1]
+            scope.append(v)
+            return {"k": "nextiv", "name": v, "iv": iv, "step": step}
         v = self.fresh("v")
         st = {"k": "pure", "op": r.choice(PURE_OPS), "a": r.choice(scope), "b": r.choice(scope), "name": v}
         scope.append(v)
@@ -392,6 +409,9 @@ def emit(ast, acc_names=None, vty="i32", decls=()) -> str:
             e(ind, f'"test.op"({", ".join(s["args"])}) {{"vtag" = {s["tag"]} : i64}} : ({tys}) -> ()')
         elif k == "pure":
             e(ind, f'{s["name"]} = arith.{s["op"]} {s["a"]}, {s["b"]} : {vty}')
+        elif k == "nextiv":
+            e(ind, f'{s["name"]}_i = arith.addi {s["iv"]}, {s["step"]} : index')
+            e(ind, f'{s["name"]} = arith.index_cast {s["name"]}_i : index to {vty}')
         elif k == "for" and s.get("as_while") and not s["carry"]:
             iv = s["iv"]
             e(ind, f'{iv}_end = scf.while ({iv}_a = {s["lb"]}) : (index) -> (index) {{')
